@@ -17,6 +17,16 @@ def base_text(variant=0):
          "256 = N 6 0", "300 = E solo", "400 = N 4 1000", "1500 = N 0 0"]
     if variant == 1:
         g = ["0 = N 7 10", "10 = S 2 5", "12 = N 0 0", "12 = N 4 7", "13 = N 1 0"]
+    if variant == 3:
+        # ticks of 8, 9 and 12 digits next to ordinary ones, in every kind of event (far, but well-formed: one tempo)
+        g = g + ["12345678 = N 1 0", "12345678 = S 2 5", "123456789 = E solo", "123456789012 = N 2 7"]
+        return chart_text(
+            res=192,
+            song=['Name = "twin"', "Offset = 0", "Player2 = bass"],
+            sync=["0 = TS 4", "0 = B 120000", "99999999 = TS 3", "123456789 = A 5"],
+            events=['0 = E "section intro"', '96 = E "lyric la"', '192 = E "custom"', '1234567890 = E "lyric far"', '1234567890 = E "section far"'],
+            tracks={"ExpertSingle": g, "HardSingle": ["0 = S 2 100", "50 = E solo"], "EasyDoubleBass": ["0 = N 0 0", "500 = N 1 20", "100000000 = N 3 0"]},
+        )
     if variant == 2:
         # the same shape, but body lines NOT in tick order (the parser accepts this under a single tempo and keeps
         # file order): a read-only operation must not "repair" the order either
@@ -39,9 +49,17 @@ def base_text(variant=0):
 
 
 def _render(chart):
+    """str / repr of the chart, of every track and of EVERY event (in list order): how one thing renders must not depend on
+    what was rendered before it."""
     h = hashlib.sha256()
     h.update(str(chart).encode())
     h.update(repr(chart).encode())
+    for _, dd in chart.instrument_tracks.items():
+        for _, t in dd.items():
+            h.update(str(t).encode())
+    for e in _events(chart):
+        h.update(str(e).encode())
+        h.update(repr(e).encode())
     return h.hexdigest()[:20]
 
 
@@ -343,6 +361,10 @@ def run(ctx):
     # the same sequences on a chart whose body lines are not in tick order ("forall charts")
     seqs2 = [(f"d{k}", ops, None) for k, (sid, ops, last) in enumerate(seqs)]
     _judge(ctx, seqs2 if not ctx.quick else seqs2[::2], base_text(2), "ChartObject.tla operation sequences, disordered chart", 2)
+    # ... and on a chart with ticks of 8 to 12 digits next to ordinary ones (first in the process's life for a slice of them:
+    # each runs in this process, whose class-level state - if any - the earlier sequences have shaped)
+    seqs3 = [(f"f{k}", ops, None) for k, (sid, ops, last) in enumerate(seqs)]
+    _judge(ctx, seqs3[:: ctx.pick(6, 1)], base_text(3), "ChartObject.tla operation sequences, chart with far ticks", 3)
     # longer seeded sequences over the same alphabet, on a second chart
     alphabet = sorted({json.dumps(b["ops"][0]) for b in beh})
     alphabet = [json.loads(a) for a in alphabet]
